@@ -22,7 +22,7 @@ for n,p,needs,res in rows:
 out.append("")
 out.append("One further seeded change was rejected: C16-2 (one argument slice per script function value instead of per call) makes the repository's own `TestGoFunctionConcurrency` fail in 4 of 5 runs, so it does not \"pass the existing tests\"; C16's lock-granularity `shared-func` programs, added because of it, do detect it.\n")
 if obsolete:
-    out.append("Obsolete (kept for the record, not part of the table above): " + ", ".join(n for n,_,_ in obsolete) + " - seeded changes that only manifested THROUGH the typed-slot aliasing defect repaired in session 4 (four variants of 'the small-integer cache made addressable, reached through `&variable`', and one index-len assignment through a second name of a typed slice): since /repo e62c826..fb1654e (a value assigned to a name or bound to a parameter is a value of its own) their demonstrations pass WITH the patch, i.e. the change no longer breaks a property on the current tree; each was confirmed and detected on the tree it was written for.\n")
+    out.append("Obsolete (kept for the record, not part of the table above): " + ", ".join(n for n,_,_ in obsolete) + " - seeded changes that only manifested THROUGH the typed-slot aliasing defect repaired in session 4 (four variants of 'the small-integer cache made addressable, reached through `&variable`', one index-len assignment through a second name of a typed slice, and one range variable updated in place): since /repo e62c826..fb1654e (a value assigned to a name or bound to a parameter is a value of its own) their demonstrations pass WITH the patch, i.e. the change no longer breaks a property on the current tree; each was confirmed and detected on the tree it was written for.\n")
 for n,p,what,why in rejected:
     out.append("Rejected: %s (%s) - %s.  %s\n" % (n,p,what,why))
 out.append("### Mutants written while building the checkers (`/verif/mutants/<ID>/*.diff`, run with `selftest.sh`)\n")
